@@ -17,7 +17,7 @@ def main(tier):
         for nolock in ("FALSE", "TRUE"):
             cfg = os.path.join(lib.BUILD, f"MC_DedupeOps_c18_{collision}_{nolock}.cfg")
             with open(cfg, "w") as f:
-                f.write(f'CONSTANTS\n  Op = "move"\n  NoLock = {nolock}\n  MaxFaults = 2\n  Collision = {collision}\n'
+                f.write(f'CONSTANTS\n  Op = "move"\n  NoLock = {nolock}\n  MaxFaults = 2\n  Collision = {collision}\n  SameIno = FALSE\n  TruncOnOpen = FALSE\n'
                         "SPECIFICATION Spec\nINVARIANTS NoOverwrite SourceLast Atomic RetainedUntouched OthersUntouched FailedRestored SucceededReplaced CollisionKept HappyPath\nCHECK_DEADLOCK FALSE\n")
             res = lib.run_tlc("MC_DedupeOps.tla", cfg, workers=4, timeout=600)
             chk.add_tlc(f"MC_DedupeOps[move,collision={collision},nolock={nolock}]", res)
